@@ -36,9 +36,20 @@ import (
 const (
 	blockWait = 40 * time.Millisecond  // a blocking post that has not returned by then is "blocked"
 	noneWait  = 25 * time.Millisecond  // a poll that sees nothing for this long polled nothing
-	longWait  = 3 * time.Second        // anything the schedule says must happen
 	hangWait  = 400 * time.Millisecond // watchdog for a Close/Suspend the schedule expects to hang
 )
+
+// lw is the time the driver waits for something the schedule says must happen.
+// Once such waits have expired a few times (the implementation does not do what
+// the schedule implies: the case files will say so) the driver stops being patient.
+var expired int
+
+func lw() time.Duration {
+	if expired > 6 {
+		return 100 * time.Millisecond
+	}
+	return 3 * time.Second
+}
 
 type pev struct{ src, val int }
 
@@ -115,6 +126,7 @@ func waitLen(vx *vaxis.Vaxis, want int, d time.Duration) bool {
 			return true
 		}
 		if time.Now().After(dl) {
+			expired++
 			return false
 		}
 		time.Sleep(200 * time.Microsecond)
@@ -153,6 +165,7 @@ func quiesce(d time.Duration) bool {
 			okRuns = 0
 		}
 		if time.Now().After(dl) {
+			expired++
 			return false
 		}
 		time.Sleep(150 * time.Microsecond)
@@ -216,7 +229,7 @@ func runCase(n int, ans bool, scripts [][]post, acts []act) (obs []obsT, rest []
 			sh.next[a.I]++
 			ps[a.I].cmd <- c
 			willBlock := c.Blk && sh.qlen >= sh.n
-			w := longWait
+			w := lw()
 			if willBlock {
 				w = blockWait
 			}
@@ -224,6 +237,9 @@ func runCase(n int, ans bool, scripts [][]post, acts []act) (obs []obsT, rest []
 			case <-ps[a.I].done:
 			case <-time.After(w):
 				o.Ret = false
+				if !willBlock {
+					expired++
+				}
 			}
 			if willBlock {
 				sh.waiter = a.I
@@ -231,12 +247,14 @@ func runCase(n int, ans bool, scripts [][]post, acts []act) (obs []obsT, rest []
 				sh.qlen++
 			}
 			if o.Ret && !willBlock {
-				waitLen(vx, sh.qlen, longWait)
+				waitLen(vx, sh.qlen, lw())
 			}
 		case "poll":
 			w := noneWait
 			if sh.qlen > 0 {
-				w = longWait
+				w = lw()
+			} else if len(vx.Events()) == 0 {
+				w = 0 // the library is at rest (quiesce) and the queue is empty: nothing can arrive
 			}
 			select {
 			case ev := <-vx.Events():
@@ -248,15 +266,18 @@ func runCase(n int, ans bool, scripts [][]post, acts []act) (obs []obsT, rest []
 				if sh.waiter >= 0 {
 					select {
 					case <-ps[sh.waiter].done:
-					case <-time.After(longWait):
+					case <-time.After(lw()):
 						note += "blocked poster did not wake; "
 					}
 					sh.waiter = -1
 					sh.qlen++
 				}
 				sh.flow()
-				waitLen(vx, sh.qlen, longWait)
+				waitLen(vx, sh.qlen, lw())
 			case <-time.After(w):
+				if sh.qlen > 0 {
+					expired++
+				}
 			}
 		case "type":
 			b := make([]byte, len(a.Keys))
@@ -266,7 +287,7 @@ func runCase(n int, ans bool, scripts [][]post, acts []act) (obs []obsT, rest []
 			fc.Inject(b)
 			sh.pendIn += len(a.Keys)
 			sh.flow()
-			if !waitLen(vx, sh.qlen, longWait) {
+			if !waitLen(vx, sh.qlen, lw()) {
 				note += "typed keys did not arrive; "
 			}
 		case "close", "suspend":
@@ -274,7 +295,7 @@ func runCase(n int, ans bool, scripts [][]post, acts []act) (obs []obsT, rest []
 			if a.Kind == "close" && sh.closed {
 				expectHang = false
 			}
-			w := longWait
+			w := lw()
 			if expectHang {
 				w = hangWait
 			}
@@ -290,22 +311,25 @@ func runCase(n int, ans bool, scripts [][]post, acts []act) (obs []obsT, rest []
 				sh.suspended = o.Ret
 			}
 			if !o.Ret {
+				if !expectHang {
+					expired++
+				}
 				sh.hung = true
 			} else {
 				sh.flow()
-				waitLen(vx, sh.qlen, longWait)
+				waitLen(vx, sh.qlen, lw())
 				if a.Kind == "suspend" {
 					// parser and input goroutine must be gone before Resume is modelled
-					waitGoroutines(gBeforeSuspend-2, longWait)
+					waitGoroutines(gBeforeSuspend-2, lw())
 				}
 			}
 		case "resume":
-			o.Ret = hx.WithTimeout(longWait, func() { _ = vx.Resume() })
+			o.Ret = hx.WithTimeout(lw(), func() { _ = vx.Resume() })
 			sh.suspended = false
 			time.Sleep(2 * time.Millisecond)
 		}
 		if !sh.hung {
-			if !quiesce(longWait) {
+			if !quiesce(lw()) {
 				note += "library goroutines did not come to rest; "
 			}
 		}
@@ -313,6 +337,9 @@ func runCase(n int, ans bool, scripts [][]post, acts []act) (obs []obsT, rest []
 			fmt.Fprintf(os.Stderr, "slow %v: %+v sh=%+v\n", d, a, *sh)
 		}
 		obs = append(obs, o)
+		if sh.hung {
+			break // nothing after a hang is comparable
+		}
 	}
 	// what is left in the queue right now
 	for k := len(vx.Events()); k > 0; k-- {
@@ -337,7 +364,7 @@ func runCase(n int, ans bool, scripts [][]post, acts []act) (obs []obsT, rest []
 				}
 			}
 		}()
-		g := waitGoroutines(base+1, longWait)
+		g := waitGoroutines(base+1, lw())
 		close(stop)
 		g = waitGoroutines(base, 200*time.Millisecond)
 		leak = g - base
@@ -474,8 +501,8 @@ func (g *gen) random(n int, scripts [][]post, withSuspend bool) []act {
 			acts = append(acts, act{Kind: "suspend"}, act{Kind: "resume"})
 		}
 	}
-	if sh.qlen >= sh.n && sh.pendIn >= 3 {
-		// would be the full-queue hang: make room first
+	for sh.qlen >= sh.n && sh.pendIn >= 3 {
+		// would be the full-queue hang (finding close-full-queue, shown by directed cases): make room first
 		acts = append(acts, act{Kind: "poll"})
 		sh.qlen--
 		if sh.waiter >= 0 {
